@@ -113,7 +113,7 @@ theorem SG_rename {g : Name → Option Node} {next : Prog} {t dst : Name} {nd : 
   simp only [exec, stepOp, ht]
   exact h _ _ _ rfl
 
-theorem good_present_resolves' {g : Name → Option Node} (hg : GoodFS g) {k : Cid}
+theorem present_resolves {g : Name → Option Node} (hg : GoodFS g) {k : Cid}
     (hk : g (.adv k) ≠ none) : resolveG g (.adv k) = some (k, true) := by
   unfold resolveG
   cases hn : g (.adv k) with
@@ -128,7 +128,7 @@ theorem absent_of_unresolved {g : Name → Option Node} (hg : GoodFS g) {k : Cid
   cases hn : g (.adv k) with
   | none => rfl
   | some n =>
-    have := good_present_resolves' hg (k := k) (by rw [hn]; simp)
+    have := present_resolves hg (k := k) (by rw [hn]; simp)
     rw [this] at h; cases h
 
 theorem present_of_resolved {g : Name → Option Node} {k : Cid}
@@ -216,19 +216,19 @@ theorem SG_pkgData {g : Name → Option Node} {t4 : Name} {k1 k2 k3 : Cid} (n : 
   unfold pkgData pkgUse
   refine SG_ifStat ?_ ?_
   · intro hres
-    refine SG_read (good_present_resolves' hg (present_of_resolved hres)) ?_
-    exact SG_read (good_present_resolves' hg h1) (SG_halt _)
+    refine SG_read (present_resolves hg (present_of_resolved hres)) ?_
+    exact SG_read (present_resolves hg h1) (SG_halt _)
   · intro hres
     have habs := absent_of_unresolved hg hres
     have hk13 : k1 ≠ k3 := by intro e; rw [e] at h1; exact h1 habs
-    refine SG_read (good_present_resolves' hg h2) (SG_mark _ (SG_create h4 (SG_mark _ ?_)))
+    refine SG_read (present_resolves hg h2) (SG_mark _ (SG_create h4 (SG_mark _ ?_)))
     refine SG_chunks n (c := k3) (by simp [updG]) (SG_finish (c := k3) (b := false) (by simp [updG]) ?_)
     refine SG_rename (nd := .file k3 true) (by simp [updG]) (SG_mark _ ?_)
     refine SG_read (c := k3) ?_ (SG_read (c := k1) ?_ (SG_halt _))
     · simp [resolveG, updG, hat k3]
     · -- the control section is still reachable: its entry and its target are untouched
       have hne : Name.adv k1 ≠ Name.adv k3 := by intro e; cases e; exact hk13 rfl
-      have hold := good_present_resolves' hg h1
+      have hold := present_resolves hg h1
       unfold resolveG at hold ⊢
       simp only [updG, hat k1, hne, if_false]
       cases hn : g (.adv k1) with
